@@ -853,7 +853,7 @@ def _native_table():
         compile: m_compile, callable: m_callable, staticmethod: m_staticmethod, round: m_round, ord: m_ord, chr: m_chr,
         reversed: m_reversed, frozenset: m_set,
         functools.partial: m_partial, functools.lru_cache: m_lru_cache, functools.cache: m_cache, functools.wraps: m_wraps, itertools.accumulate: m_accumulate, itertools.repeat: m_repeat,
-        math.floor: m_floor, math.isfinite: m_isfinite, math.log: m_log, math.sqrt: m_sqrt,
+        math.floor: m_floor, math.isfinite: m_isfinite, math.log: m_log, math.sqrt: m_sqrt, math.isclose: m_isclose,
         _bisect_mod.bisect: m_bisect_right, _bisect_mod.bisect_right: m_bisect_right,
         _bisect_mod.bisect_left: m_bisect_left,
         _random_mod.choices: m_random_choices,
@@ -894,7 +894,48 @@ def native_table():
     return _NATIVE
 
 
+def m_isclose(ctx, interp, args, kwargs):
+    a, b = args[0], args[1]
+    rel = kwargs.get("rel_tol", 1e-09)
+    ab = kwargs.get("abs_tol", 0.0)
+    if not contains_sym([a, b, rel, ab]):
+        return math.isclose(a, b, rel_tol=rel, abs_tol=ab)
+    if contains_sym([rel, ab]):
+        raise Unsupported("math.isclose with symbolic tolerances")
+    if ctx.float_mode == "fp":
+        x, y = ops.fp_term(a), ops.fp_term(b)
+        diff = z3.fpAbs(z3.fpSub(RNE, x, y))
+        big = z3.fpMax(z3.fpAbs(x), z3.fpAbs(y))
+        tol = z3.fpMax(z3.fpMul(RNE, fp_const(float(rel)), big), fp_const(float(ab)))
+        finite = z3.Not(z3.Or(z3.fpIsNaN(x), z3.fpIsNaN(y), z3.fpIsInf(x), z3.fpIsInf(y)))
+        return ops.wrap_bool(z3.Or(z3.fpEQ(x, y), z3.And(finite, z3.fpLEQ(diff, tol))))
+    x, y = ops.real_term(a), ops.real_term(b)
+    absx = z3.If(x >= 0, x, -x)
+    absy = z3.If(y >= 0, y, -y)
+    d = z3.If(x - y >= 0, x - y, y - x)
+    big = z3.If(absx >= absy, absx, absy)
+    r, t = ops.real_term(float(rel)), ops.real_term(float(ab))
+    tol = z3.If(r * big >= t, r * big, t)
+    return ops.wrap_bool(d <= tol)
+
+
+def _pure_natives():
+    """pure functions of the standard library that may be called natively on CONCRETE arguments"""
+    import operator
+    out = set()
+    for mod in (math, operator):
+        for n in dir(mod):
+            f = getattr(mod, n)
+            if callable(f) and not n.startswith("_"):
+                out.add(f)
+    return out
+
+
+_PURE = None
+
+
 def call_native(ctx, interp, fn, args, kwargs):
+    global _PURE
     tbl = native_table()
     try:
         model = tbl.get(fn)
@@ -927,6 +968,17 @@ def call_native(ctx, interp, fn, args, kwargs):
                 ctx.note("model: pydantic model built without validation (construct) for symbolic fields")
                 return fn.construct(**kwargs)
             raise Unsupported("native class with symbolic args")
+        try:
+            return fn(*args, **kwargs)
+        except Exception as e:
+            raise SymRaise(e)
+    if _PURE is None:
+        _PURE = _pure_natives()
+    try:
+        pure = fn in _PURE
+    except TypeError:
+        pure = False
+    if pure and not contains_sym(args) and not contains_sym(kwargs):
         try:
             return fn(*args, **kwargs)
         except Exception as e:
@@ -1058,6 +1110,11 @@ def call_method(ctx, interp, obj, name, args, kwargs):
 
 def str_method(ctx, interp, s, name, args, kwargs):
     sym = contains_sym(s) or contains_sym(args) or contains_sym(kwargs)
+    if not sym and name == "format":
+        try:
+            return s.format(*args, **kwargs)
+        except Exception as e:
+            raise SymRaise(e)
     if not sym:
         if name == "join":
             args = [interp.iterate(args[0])]
@@ -1067,8 +1124,6 @@ def str_method(ctx, interp, s, name, args, kwargs):
                                              % pytype_of(e).__name__))
         if name == "encode":
             pass
-        if name == "format":
-            raise Unsupported("str.format")
         try:
             return getattr(s, name)(*args, **kwargs)
         except Exception as e:
@@ -1120,6 +1175,8 @@ def str_method(ctx, interp, s, name, args, kwargs):
         raise Unsupported("str.strip on symbolic str")
     if name == "__len__":
         return ops.py_len(ctx, s)
+    if name in ("format", "format_map"):
+        return str_format(ctx, interp, s, name, args, kwargs)
     if name == "isascii" and isinstance(s, SStr) and not args:
         return ops.wrap_bool(z3.InRe(s.term, z3.Star(z3.Range(chr(0), chr(127)))))
     if isinstance(s, SStr) and name in _PURE_STR_TO_STR and not contains_sym(args) and not kwargs:
@@ -1141,6 +1198,46 @@ def str_method(ctx, interp, s, name, args, kwargs):
     if name == "replace" and len(args) == 2:
         raise Unsupported("str.replace on symbolic str")
     raise Unsupported("str.%s with symbolic values" % name)
+
+
+def str_format(ctx, interp, s, name, args, kwargs):
+    """str.format: a CONCRETE template with symbolic arguments is substituted field by field; a SYMBOLIC string used as
+    the template means its contents are interpreted as replacement fields (recorded; the result is an arbitrary string)."""
+    import string as _string
+    if name == "format_map":
+        kwargs = dict(args[0]) if args and isinstance(args[0], dict) else {}
+        args = []
+    if isinstance(s, SStr):
+        ctx.note("format-template: a symbolic string is used as a str.format template (its braces are interpreted)")
+        return SStr(z3.String(ctx.fresh_name("formatted")))
+    out = ""
+    auto = 0
+    try:
+        parsed = list(_string.Formatter().parse(s))
+    except ValueError as e:
+        raise SymRaise(e)
+    for literal, field, spec, conv in parsed:
+        out = ops.str_concat(out, literal)
+        if field is None:
+            continue
+        if spec or (conv not in (None, "s", "r")):
+            raise Unsupported("str.format with a format spec / conversion on symbolic arguments")
+        if field == "":
+            key = auto
+            auto += 1
+        elif field.isdigit():
+            key = int(field)
+        else:
+            key = field
+        if isinstance(key, str) and not key.isidentifier():
+            raise Unsupported("str.format with attribute / index lookups")
+        try:
+            v = args[key] if isinstance(key, int) else kwargs[key]
+        except (IndexError, KeyError) as e:
+            raise SymRaise(e)
+        piece = m_repr(ctx, interp, v) if conv == "r" else m_str(ctx, interp, v)
+        out = ops.str_concat(out, piece)
+    return out
 
 
 _PURE_STR_TO_STR = {"upper", "casefold", "title", "capitalize", "swapcase", "lstrip", "rstrip", "strip", "replace", "zfill",
